@@ -172,6 +172,9 @@ func (e *Enc) ghostAssume(st *State, name string, c, old Term) {
 	switch name {
 	case "polls":
 		e.assume(st.reach, Ge(c, old))
+	case "trN":
+		// the activation trace only grows (and starts empty)
+		e.assume(st.reach, And(Ge(c, old), Ge(c, I(0))))
 	}
 }
 
